@@ -199,6 +199,37 @@ struct Emit {
     out: std::io::BufWriter<std::fs::File>,
     langs_seen: BTreeMap<String, String>,
     cases: usize,
+    /// side file `<ops>.treediff`: one line `<case> <same|zw|other>` per case (round 11): how the two
+    /// public trees differ — `zw` = same shape and positions, only the KIND of zero-width leaves differs
+    side: Vec<String>,
+}
+
+/// How do two cursor walks differ?  "same"; "zw" = same number of nodes, and every differing node is a
+/// zero-width leaf at the same depth/position/flags whose kind alone differs; "other" otherwise.
+fn walk_diff_kind(a: &str, b: &str) -> &'static str {
+    if a == b {
+        return "same";
+    }
+    let (la, lb): (Vec<&str>, Vec<&str>) = (a.lines().collect(), b.lines().collect());
+    if la.len() != lb.len() {
+        return "other";
+    }
+    for (x, y) in la.iter().zip(lb.iter()) {
+        if x == y {
+            continue;
+        }
+        let (fx, fy): (Vec<&str>, Vec<&str>) = (x.splitn(9, ' ').collect(), y.splitn(9, ' ').collect());
+        if fx.len() != 9 || fy.len() != 9 {
+            return "other";
+        }
+        // fields: depth kind_id field start end r:c r:c flags kind
+        let same_place = fx[0] == fy[0] && fx[2..8] == fy[2..8];
+        let zero_width = fx[3] == fx[4];
+        if !(same_place && zero_width) {
+            return "other";
+        }
+    }
+    "zw"
 }
 
 impl Emit {
@@ -264,8 +295,10 @@ impl Emit {
             writeln!(o, "old\n{old_dump}").unwrap();
             writeln!(o, "incr\n{}", dump_tree(&incr)).unwrap();
             writeln!(o, "scratch\n{}", dump_tree(&scratch)).unwrap();
-            writeln!(o, "walk_incr\n{}end", cursor_walk(&incr)).unwrap();
-            writeln!(o, "walk_scratch\n{}end", cursor_walk(&scratch)).unwrap();
+            let (wi, ws) = (cursor_walk(&incr), cursor_walk(&scratch));
+            self.side.push(format!("{cid} {}", walk_diff_kind(&wi, &ws)));
+            writeln!(o, "walk_incr\n{wi}end").unwrap();
+            writeln!(o, "walk_scratch\n{ws}end").unwrap();
             writeln!(o, "log").unwrap();
             for l in log.lock().unwrap().iter() {
                 // drop the noisiest lines the replay does not use
@@ -504,7 +537,7 @@ fn main() {
     let out_path = args.get(1).expect("usage: c01 <ops-file> <langs-file> [--spec file] [lang...]").clone();
     let langs_path = args.get(2).expect("langs file").clone();
     let variant = probe_gate_variant();
-    let mut em = Emit { current: format!("{out_path}.current"), out: std::io::BufWriter::with_capacity(1 << 20, std::fs::File::create(&out_path).unwrap()), langs_seen: BTreeMap::new(), cases: 0 };
+    let mut em = Emit { current: format!("{out_path}.current"), out: std::io::BufWriter::with_capacity(1 << 20, std::fs::File::create(&out_path).unwrap()), langs_seen: BTreeMap::new(), cases: 0, side: Vec::new() };
     let eof_variant = probe_eof_variant();
     writeln!(em.out, "variant colfix {variant}").unwrap();
     writeln!(em.out, "variant eoffix {eof_variant}").unwrap();
@@ -531,6 +564,10 @@ fn main() {
         for v in em.langs_seen.values() {
             writeln!(f, "{v}").unwrap();
         }
+        let mut sf = std::io::BufWriter::new(std::fs::File::create(format!("{}.treediff", em.current.trim_end_matches(".current"))).unwrap());
+        for l in &em.side {
+            writeln!(sf, "{l}").unwrap();
+        }
     };
     if args.get(3).map(|s| s == "--spec").unwrap_or(false) {
         let specs = std::fs::read_to_string(&args[4]).unwrap();
@@ -546,6 +583,7 @@ fn main() {
         return;
     }
     let only: Vec<String> = args[3..].to_vec();
+    let do_colwords = only.is_empty() || only.iter().any(|l| l == "colwords");
     let mut rng = Rng::new(seed_from_env());
     let thorough = tier_is_thorough();
     // corpus first
@@ -562,7 +600,7 @@ fn main() {
         }
     }
     let corpus_cases = em.cases;
-    let langs: Vec<String> = if only.is_empty() { zoo::list() } else { only };
+    let langs: Vec<String> = if only.is_empty() { zoo::list() } else { only.into_iter().filter(|l| l != "colwords").collect() };
     let (docs_per_lang, hist_per_doc, exh_docs, exh_max) = if thorough { (48, 14, 8, 200) } else { (16, 6, 3, 60) };
     let mut hist_no = 0usize;
     let mut exhaustive_cases = 0usize;
@@ -729,6 +767,87 @@ fn main() {
             }
         }
     }
+    // Round 11: PRIVATE grammar zoo/colwords (zero-width odd/even token by lexer->get_column before every
+    // `x`).  Every document over {x, blank, tab, newline} is in the language, so every scratch tree is
+    // error-free.  Multi-line documents; edits that JOIN lines (delete/replace a range containing a line
+    // break), SPLIT lines (insert a line break) and SHIFT columns (same-line insert/delete before later
+    // `x` tokens of that line).  Runs last, so the random streams of the shared languages are unchanged.
+    let mut colwords_cases = 0usize;
+    if do_colwords && get("colwords", &mut built) {
+        let b = &built["colwords"];
+        let docs = if thorough { 400 } else { 70 };
+        for d in 0..docs {
+            let nlines = rng.range(2, if d % 3 == 0 { 8 } else { 4 });
+            let mut text: Vec<u8> = Vec::new();
+            for l in 0..nlines {
+                let len = match rng.below(4) {
+                    0 => rng.range(0, 3),
+                    1 => rng.range(3, 6),
+                    _ => rng.range(2, 12),
+                };
+                for _ in 0..len {
+                    text.push(match rng.below(10) {
+                        0 | 1 => b' ',
+                        2 if rng.chance(1, 3) => b'\t',
+                        _ => b'x',
+                    });
+                }
+                if l + 1 < nlines || rng.chance(1, 3) {
+                    text.push(b'\n');
+                }
+            }
+            for _h in 0..(if thorough { 12 } else { 8 }) {
+                let steps = rng.range(1, 3);
+                let chunk = *rng.pick(&[0usize, 0, 0, 1, 3]);
+                let mut cur = text.clone();
+                let mut hs = Vec::new();
+                for _ in 0..steps {
+                    let n = cur.len();
+                    let nls: Vec<usize> = (0..n).filter(|&i| cur[i] == b'\n').collect();
+                    let small_ins = |rng: &mut Rng| -> Vec<u8> { rng.pick(&[&b""[..], &b""[..], &b" "[..], &b"x"[..], &b"xx"[..], &b"x x"[..]]).to_vec() };
+                    let te = match rng.below(6) {
+                        // JOIN: a range that contains a line break is deleted or replaced by line-break-free text
+                        0 | 1 if !nls.is_empty() => {
+                            let nl = *rng.pick(&nls);
+                            let a = nl - rng.below(4).min(nl);
+                            let e = (nl + 1 + rng.below(4)).min(n);
+                            TextEdit { start: a, old_end: e, ins: small_ins(&mut rng) }
+                        }
+                        // SPLIT: a line break is inserted (optionally replacing 1-2 bytes)
+                        2 => {
+                            let a = rng.below(n + 1);
+                            let e = (a + rng.pick(&[0usize, 0, 0, 1, 2])).min(n);
+                            TextEdit { start: a, old_end: e, ins: rng.pick(&[&b"\n"[..], &b"\n"[..], &b" \n"[..], &b"x\n"[..], &b"\nx"[..], &b"\n\n"[..]]).to_vec() }
+                        }
+                        // SHIFT: same-line insertion / deletion / replacement of different length, placed
+                        // before a later `x` of the same line whenever the line has one
+                        _ => {
+                            let xs: Vec<usize> = (0..n).filter(|&i| cur[i] == b'x').collect();
+                            let at = if xs.is_empty() { rng.below(n + 1) } else {
+                                let x = *rng.pick(&xs);
+                                let ls = cur[..x].iter().rposition(|&c| c == b'\n').map(|p| p + 1).unwrap_or(0);
+                                rng.range(ls, x)
+                            };
+                            let mut e = (at + rng.pick(&[0usize, 0, 1, 1, 2])).min(n);
+                            while e > at && cur[at..e].contains(&b'\n') {
+                                e -= 1;
+                            }
+                            let mut ins = rng.pick(&[&b" "[..], &b"x"[..], &b"  "[..], &b"xx"[..], &b""[..], &b"\t"[..], &b"x x"[..]]).to_vec();
+                            if e == at && ins.is_empty() {
+                                ins = b" ".to_vec();
+                            }
+                            TextEdit { start: at, old_end: e, ins }
+                        }
+                    };
+                    cur = te.apply(&cur);
+                    hs.push(Step { edit: te, ranges: vec![] });
+                }
+                hist_no += 1;
+                let h = History { lang: "colwords".into(), chunk, text: text.clone(), ranges0: vec![], steps: hs };
+                colwords_cases += em.history(&format!("colwords-{hist_no}"), &h, b);
+            }
+        }
+    }
     finish(&mut em, &langs_path);
-    eprintln!("c01: wrote {} cases ({} corpus, {} exhaustive single-char) to {}", em.cases, corpus_cases, exhaustive_cases, out_path);
+    eprintln!("c01: wrote {} cases ({} corpus, {} exhaustive single-char, {} colwords line-join/split/column-shift) to {}", em.cases, corpus_cases, exhaustive_cases, colwords_cases, out_path);
 }
